@@ -11,7 +11,7 @@ pub open spec fn init() -> St { St { result: seq![], buf: seq![], in_quotes: fal
 pub uninterp spec fn is_ws(c: char) -> bool;      // char::is_whitespace
 // assumed facts about char::is_whitespace (Unicode White_Space): space, LF, CR, TAB are; quote, backslash, 'n', 'r' are not
 pub broadcast axiom fn ws_facts()
-    ensures #[trigger] is_ws(' '), !is_ws('"'), !is_ws('\\'), is_ws('\n'), is_ws('\r'), is_ws('\t'), !is_ws('n'), !is_ws('r');
+    ensures #[trigger] is_ws(' '), !is_ws('"'), !is_ws('\\'), is_ws('\n'), is_ws('\r'), is_ws('\t'), !is_ws('n'), !is_ws('r'), !is_ws('0'), !is_ws('\0');
 
 pub open spec fn step(st: St, c: char, multi: bool) -> St {
     if st.err { st }
@@ -31,6 +31,7 @@ pub open spec fn step(st: St, c: char, multi: bool) -> St {
     else if c == 'n' && st.escaping { St { buf: st.buf.push('\n'), escaping: false, ..st } }
     else if c == 'r' && st.escaping { St { buf: st.buf.push('\r'), escaping: false, ..st } }
     else if c == 't' && st.escaping { St { buf: st.buf.push('\t'), escaping: false, ..st } }
+    else if c == '0' && st.escaping { St { buf: st.buf.push('\0'), escaping: false, ..st } }
     else if st.escaping { St { err: true, ..st } }
     else { St { buf: st.buf.push(c), ..st } }
 }
@@ -86,7 +87,7 @@ pub proof fn lemma_err_sticky(st: St, t: Seq<char>, multi: bool)
 
 // ---------- spec: the writer the *property* needs: "read back exactly as emitted" => escape backslash and quote ----------
 pub open spec fn esc1(c: char) -> Seq<char> {
-    if c == '\\' { seq!['\\', '\\'] } else if c == '"' { seq!['\\', '"'] } else if c == '\n' { seq!['\\', 'n'] } else if c == '\r' { seq!['\\', 'r'] } else { seq![c] }
+    if c == '\\' { seq!['\\', '\\'] } else if c == '"' { seq!['\\', '"'] } else if c == '\n' { seq!['\\', 'n'] } else if c == '\r' { seq!['\\', 'r'] } else if c == '\0' { seq!['\\', '0'] } else { seq![c] }
 }
 pub open spec fn esc(a: Seq<char>) -> Seq<char>
     decreases a.len()
@@ -116,7 +117,7 @@ pub proof fn lemma_esc_inside(st: St, a: Seq<char>)
         assert(esc(a) == head + esc(rest));
         lemma_run_concat(st, head, esc(rest), true);
         let mid = St { buf: st.buf.push(c), ..st };
-        if c == '\\' || c == '"' || c == '\n' || c == '\r' {
+        if c == '\\' || c == '"' || c == '\n' || c == '\r' || c == '\0' {
             let second = head[1];
             let s1 = step(st, '\\', true);
             assert(s1 == (St { escaping: true, ..st }));
@@ -133,6 +134,33 @@ pub proof fn lemma_esc_inside(st: St, a: Seq<char>)
         assert(run_from(st, head, true) == mid);
         lemma_esc_inside(mid, rest);
         assert(st.buf.push(c) + rest =~= st.buf + a);
+    }
+}
+
+// a record of the bytecode file ends at the first NUL byte: the encoded arguments contain none, whatever the arguments are
+pub proof fn lemma_esc_no_nul(a: Seq<char>)
+    ensures forall|i: int| 0 <= i < esc(a).len() ==> esc(a)[i] != '\0'
+    decreases a.len()
+{
+    if a.len() != 0 {
+        lemma_esc_no_nul(a.drop_first());
+        let h = esc1(a[0]); let t = esc(a.drop_first());
+        assert(esc(a) == h + t);
+        assert forall|i: int| 0 <= i < esc(a).len() implies esc(a)[i] != '\0' by { if i < h.len() { assert(esc(a)[i] == h[i]); } else { assert(esc(a)[i] == t[i - h.len()]); } }
+    }
+}
+pub proof fn lemma_enc_args_no_nul(args: Seq<Seq<char>>)
+    ensures forall|i: int| 0 <= i < enc_args(args).len() ==> enc_args(args)[i] != '\0'
+    decreases args.len()
+{
+    if args.len() != 0 {
+        lemma_enc_args_no_nul(args.drop_last());
+        lemma_esc_no_nul(args.last());
+        let h = enc_args(args.drop_last()); let e = esc(args.last());
+        let t = enc_arg(args.last());
+        assert(t =~= seq![' ', '"'] + e + seq!['"']);
+        assert forall|i: int| 0 <= i < t.len() implies t[i] != '\0' by { if i >= 2 && i < 2 + e.len() { assert(t[i] == e[i - 2]); } }
+        assert forall|i: int| 0 <= i < enc_args(args).len() implies enc_args(args)[i] != '\0' by { if i < h.len() { assert(enc_args(args)[i] == h[i]); } else { assert(enc_args(args)[i] == t[i - h.len()]); } }
     }
 }
 
